@@ -129,6 +129,18 @@ def run(prop, tier):
                     viol = {"what": "numpy export has shape %r, expected (channels, samples) = %r" % (arr.shape, (ch, n))}
                 if viol is None and not np.array_equal(np.asarray(reg), arr):
                     viol = {"what": "np.asarray(region) differs from region.numpy()"}
+                # what a caller does with an exported array (say, normalising it in place) is the caller's business: the region keeps
+                # its bytes and the next export holds the sample values again
+                keep = arr.copy()
+                try:
+                    if arr.flags.writeable:
+                        arr[...] = 7
+                except Exception:
+                    pass
+                again = reg.numpy()
+                if viol is None and (bytes(reg.data) != data or not np.array_equal(again, keep) or not np.array_equal(np.asarray(reg), keep)):
+                    viol = {"what": "after the array returned by numpy() was overwritten by its caller, the region's bytes or its next export changed (element [0][0] is now %r, the sample value is %r)" % (
+                        again[0][0] if again.size else None, keep[0][0] if keep.size else None), "sw": w, "ch": ch, "samples": n}
         # --- beyond a mebibyte: skip / max_read over multi-channel audio, wav files whose frame size does not divide 2^20
         for (rate_, w_, ch_, secs) in ((16000, 2, 2, 25.0), (16000, 2, 3, 15.0), (8000, 1, 5, 60.0)):
             bps_ = w_ * ch_
